@@ -62,7 +62,7 @@ var checks = []Check{
 		Assumptions: append([]string{"scripted stream with gRPC's send/recv failure coupling (a failed Send breaks the stream, Recv then fails); real gRPC streams are outside the model", "one caller thread (the dependency stream's hook is the only caller in the product)"}, engineAssumptions...),
 		Jobs: []Job{
 			{Pkg: "config", Scenarios: []string{"C16/short"}, Shards: 16, QuickS: 80, ThoroughS: 240},
-			{Pkg: "config", Scenarios: []string{"C16/phases"}, Shards: 16, QuickS: 60, ThoroughS: 240},
+			{Pkg: "config", Scenarios: []string{"C16/phases", "C16/slow-send"}, Shards: 16, QuickS: 60, ThoroughS: 240},
 			{Pkg: "config", Scenarios: []string{"C16/many", "C16/smallqueue"}, Shards: 16, QuickS: 80, ThoroughS: 240},
 			{Pkg: "config", Scenarios: []string{"C16/dependency-hook"}, Shards: 16, QuickS: 60, ThoroughS: 240},
 		},
